@@ -373,3 +373,44 @@ func vpH_S00_symbolic() {
 	vpCover(n == 5 && ba && !bb, "n=5")
 	vpCover(n == 0, "n=0")
 }
+
+// gocap: with vpOpt("gocap", 1) the evaluator grows the capacity of HEAP slices exactly like the gc runtime's growslice
+// (checked against the real runtime by the native run of this very harness). Slices that do not escape may get a
+// stack buffer of another capacity from the compiler (go1.25+); the model is only used for slices held in heap objects.
+type vpCapSink struct {
+	ps   []*int
+	p3   []*int
+	p5   []*int
+	bs   []byte
+	ss   []string
+}
+
+var vpCapSinkG *vpCapSink
+
+func vpH_S00_gocap() {
+	vpOpt("gocap", 1)
+	k := &vpCapSink{}
+	vpCapSinkG = k
+	caps := []int{1, 2, 4, 4, 8, 8, 8, 8, 16}
+	for i := 0; i < 9; i++ {
+		k.ps = append(k.ps, nil)
+		vpAssert(cap(k.ps) == caps[i], "pointer slice grown one by one: 1,2,4,4,8,8,8,8,16")
+	}
+	k.p3 = append(k.p3, k.ps[:3]...)
+	vpAssert(cap(k.p3) == 3, "append(nil, three pointers...) has capacity 3 (24-byte size class)")
+	k.p5 = append(k.p5, k.ps[:5]...)
+	vpAssert(cap(k.p5) == 6, "append(nil, five pointers...) has capacity 6 (48-byte size class)")
+	k.bs = append(k.bs, 1, 2, 3, 4, 5)
+	vpAssert(cap(k.bs) == 8, "five bytes land in the 8-byte size class")
+	k.bs = append(k.bs, 6, 7, 8, 9)
+	vpAssert(cap(k.bs) == 16, "doubling")
+	k.ss = append(k.ss, "a")
+	k.ss = append(k.ss, "b")
+	k.ss = append(k.ss, "c")
+	vpAssert(cap(k.ss) == 4, "string slice grown one by one to three has capacity 4")
+	// aliasing through spare capacity
+	x := append(k.ss, "x")
+	y := append(k.ss, "y")
+	vpAssert(x[3] == "y" && y[3] == "y", "two appends to a slice with spare capacity share the cell")
+	vpCover(true, "ran")
+}
